@@ -139,6 +139,41 @@ theorem order_independent_observations (h1 h2 : List (Name × ClassDef))
   | none => rfl
   | some p => simp only [slotDefsOf_congr hdf p, hdflt]
 
+/-- order_independent_histories: order independence for histories WITH redefinitions. Two histories
+    in which every class has the same forms in the same relative order (its definition and all its
+    redefinitions), interleaved with the forms of the other classes in any way whatsoever — before or
+    after its superclasses, with superclasses missing for any stretch, with super- and
+    grand-superclasses redefined while a class waits — end in the same state and give the same
+    observations. (`Perm` is implied by the hypothesis; the generator of the history families
+    produces exactly such interleavings.) -/
+theorem order_independent_histories (h1 h2 : List (Name × ClassDef))
+    (hf : ∀ c, h1.filter (fun p => p.1 = c) = h2.filter (fun p => p.1 = c)) (c : Name) :
+    inhOf (run h1) c = inhOf (run h2) c ∧ defOf (run h1) c = defOf (run h2) c ∧
+    precOf (run h1) c = precOf (run h2) c ∧
+    (∀ k, typep (run h1) c k = typep (run h2) c k) ∧
+    (∀ ms, applicable (run h1) c ms = applicable (run h2) c ms) ∧
+    (∀ args, makeInstance (run h1) c args = makeInstance (run h2) c args) := by
+  have hd := lastDef_eq_of_filter h1 h2 hf
+  exact ⟨(order_independent_defs h1 h2 hd c).1, (order_independent_defs h1 h2 hd c).2,
+    order_independent_observations h1 h2 hd c⟩
+
+-- two interleavings of: class 0 defined then redefined, class 1 (a subclass of 0 and of the late class 2), class 2
+example : ∀ c, ([(1, (⟨[0, 2], [], []⟩ : ClassDef)), (0, ⟨[], [⟨0, [], some 1⟩], []⟩), (0, ⟨[], [⟨0, [], some 2⟩], []⟩), (2, ⟨[], [], []⟩)] :
+      List (Name × ClassDef)).filter (fun p => p.1 = c) =
+    ([(0, (⟨[], [⟨0, [], some 1⟩], []⟩ : ClassDef)), (2, ⟨[], [], []⟩), (0, ⟨[], [⟨0, [], some 2⟩], []⟩), (1, ⟨[0, 2], [], []⟩)] :
+      List (Name × ClassDef)).filter (fun p => p.1 = c) := by
+  intro c
+  by_cases h0 : c = 0
+  · subst h0; decide
+  · by_cases h1 : c = 1
+    · subst h1; decide
+    · by_cases h2 : c = 2
+      · subst h2; decide
+      · have e0 : ¬ 0 = c := fun e => h0 e.symm
+        have e1 : ¬ 1 = c := fun e => h1 e.symm
+        have e2 : ¬ 2 = c := fun e => h2 e.symm
+        simp [List.filter_cons, e0, e1, e2]
+
 /-! ## redefinition -/
 
 /-- redefine_propagates: after a class `a` is redefined (at the end of any history) the state is
